@@ -16,7 +16,7 @@ structure IdxR where
 
 inductive Tok where
   | chunk (cs : List Char)                                   -- operators, numbers, brackets, whitespace, newlines
-  | lt                                                       -- a `<` operator (not followed by a `>` later on)
+  | lt                                                       -- a `<` operator (one that does not open an error term)
   | var (n : List Char) (ix : Option IdxR)
   | param (w1 n w2 : List Char) (ix : Option IdxR)           -- `{ w1 n w2 }`
   | err (w1 n w2 : List Char) (ix : Option IdxR)             -- `< w1 n w2 >`
@@ -85,7 +85,7 @@ def Tok.wf : Tok → Prop
 /-- Boundary condition: what may follow the token without changing how it is matched. -/
 def Tok.nextOk : Tok → List Char → Prop
   | .chunk _, _ => True
-  | .lt, rest => ∀ c ∈ rest, c ≠ '>'
+  | .lt, rest => brAt '<' '>' .error ('<' :: rest) = none   -- e.g. when no `>` follows: `brAt_lt_none`
   | .var _ none, rest => HeadNot isFnChar rest ∧ HeadNot (· == '[') rest ∧ NoOpen '(' rest
   | .var _ (some _), _ => True
   | .param _ _ _ none, rest => HeadNot (· == '[') rest
@@ -142,11 +142,12 @@ theorem brAt_lt_none (rest : List Char) (h : ∀ c ∈ rest, c ≠ '>') : brAt '
     · rfl
   · rfl
 
-theorem matchAt_lt (pw : Bool) (rest : List Char) (h : ∀ c ∈ rest, c ≠ '>') : matchAt pw ('<' :: rest) = none := by
+theorem matchAt_lt (pw : Bool) (rest : List Char) (h : brAt '<' '>' .error ('<' :: rest) = none) :
+    matchAt pw ('<' :: rest) = none := by
   unfold matchAt matchAtK
   have hf : isIdStart '<' = false := by decide
   rw [verbAt_none _ _ (by decide), invalidAt, invalidLen_head_none _ keywordChars_table _ _ hf,
-    keywordAt, keywordName_head_none _ keywordChars_table _ _ hf, brAt_none _ _ _ _ _ (by decide), brAt_lt_none rest h]
+    keywordAt, keywordName_head_none _ keywordChars_table _ _ hf, brAt_none _ _ _ _ _ (by decide), h]
   simp only [functionAt, variableAt, hf]
   cases pw <;> simp
 
@@ -294,7 +295,7 @@ def Tok.wfB : Tok → Bool
 
 def Tok.nextOkB : Tok → List Char → Bool
   | .chunk _, _ => true
-  | .lt, rest => rest.all (· != '>')
+  | .lt, rest => (brAt '<' '>' .error ('<' :: rest)).isNone
   | .var _ none, rest => headNotB isFnChar rest && headNotB (· == '[') rest && noOpenB '(' rest
   | .var _ (some _), _ => true
   | .param _ _ _ none, rest => headNotB (· == '[') rest
@@ -372,7 +373,7 @@ theorem Tok.wfB_sound {t : Tok} (h : t.wfB = true) : t.wf := by
 theorem Tok.nextOkB_sound {t : Tok} {rest : List Char} (h : t.nextOkB rest = true) : t.nextOk rest := by
   cases t with
   | chunk cs => trivial
-  | lt => intro c hc; have := (List.all_eq_true.mp h) c hc; simpa using this
+  | lt => simpa [Tok.nextOkB, Tok.nextOk] using h
   | var n ix =>
     cases ix with
     | none =>
